@@ -15,6 +15,9 @@
 // also given to the model as raw text (`fsreset/file/l/readispd`), and a stream `tmut` applies *textual*
 // mutations (comments, blank lines, padding, dropped/extra/junk tokens, glued colons, upper-cased keys,
 // duplicated headers, damaged .aux files; opened by .aux path, by prefix without suffix, or by directory).
+// Stream `rel` (F18): export to *relative* prefixes (bare, `sub/d`, `a/b/d`, `./d`) and to an absolute one from a
+// working directory of its own, compare the .aux text, and read back by .aux path, by bare prefix and by directory;
+// every read must reproduce the circuit (direct oracle) and equal `Text.readIspd` on the model's file system.
 // `write_placement`/`load_placement` of coloquinte.py: stream through c20_reader.py jobs `wplp` (write, then
 // load into a blanked circuit) and `lp` (load a harness-made .pl with /FIXED markers, missing cells, …).
 // Direct oracle (in-domain, unmutated cases): the re-read circuit equals the original field by field
@@ -23,6 +26,7 @@
 // `Circuit::hpwl()` of the original; every Python-visible enum value of the stand-in (built from the
 // text of module.cpp) equals the C++ enumerator of the same name.
 #include <sys/stat.h>
+#include <unistd.h>
 
 #include "common/circuit.hpp"
 #include "common/harness.hpp"
@@ -517,7 +521,7 @@ static std::string textMutate(std::map<std::string, std::vector<std::string>> &f
   auto pickLine = [&]() { return (size_t)g.range(0, (long long)ls.size() - 1); };
   auto tokens = [&](const std::string &l) { return toks(l, false); };
   auto join = [&](const std::vector<std::string> &t, const std::string &sep) { std::string r; for (size_t i = 0; i < t.size(); ++i) r += (i ? sep : "") + t[i]; return r; };
-  int m = g.range(0, 13);
+  int m = g.range(0, 14);
   if (ls.empty()) { ls.push_back("# only line"); return fn + ":was-empty"; }
   switch (m) {
     case 0: { static const char *c[] = {"# a comment", "#", "", "   ", "\t# indented comment", " \t "}; ls.insert(ls.begin() + g.range(0, (long long)ls.size()), c[g.range(0, 5)]); return "insert-comment-or-blank"; }
@@ -538,6 +542,18 @@ static std::string textMutate(std::map<std::string, std::vector<std::string>> &f
     case 10: { if (fn == "nodes" || fn == "pl") { size_t i = pickLine(); auto t = tokens(ls[i]); if (t.size() > 1) { t[1] = g.chance(1, 2) ? "1_0" : "1__0"; ls[i] = join(t, " "); } } return "underscore-int"; }
     case 11: { if (fn == "aux") { static const char *x[] = {" extra.txt", " other.nodes", " b.pl", "\nsecond.line", " t.nodes"}; std::string add = x[g.range(0, 4)]; if (add[0] == '\n') ls.push_back(add.substr(1)); else ls[0] += add; } else { ls.insert(ls.begin(), "UCLA again 1.0"); } return fn == "aux" ? "aux-extra-name" : "second-ucla-line"; }
     case 12: { if (fn == "aux") { auto t = tokens(ls[0]); if (t.size() > 2) { t.erase(t.begin() + 2 + g.range(0, (long long)t.size() - 3)); ls[0] = join(t, " "); } return "aux-drop-name"; } size_t i = pickLine(); auto t = tokens(ls[i]); if (t.size() >= 2) ls[i] = t[0] + " " + t[1]; return "two-tokens"; }
+    case 13: {
+      // error precedence inside one pin line: float() of a bad offset (ValueError) comes before the assert on an
+      // unknown cell (AssertionError); with good offsets the unknown cell is an AssertionError
+      std::vector<std::string> &nl = files["nets"];
+      std::vector<size_t> pinLines;
+      for (size_t i = 0; i < nl.size(); ++i) if (!nl[i].empty() && nl[i][0] == '\t') pinLines.push_back(i);
+      static const char *bad[] = {"\tzz9 I : abc 1", "\tzz9 I : 1 x7", "\tzz9 I : 1 2", "\tzz9 B", "\to0 I : 1.5.2 0", "\tzz9 I : 1e 2"};
+      std::string line = bad[g.range(0, 5)];
+      if (pinLines.empty()) { nl.push_back("NetDegree : 1 nx"); nl.push_back(line); }
+      else nl[pinLines[g.range(0, (long long)pinLines.size() - 1)]] = line;
+      return "pin-bad-float-unknown-cell";
+    }
     default: { if (fn == "nodes") { ls.push_back("  dummy" + std::to_string(g.range(0, 3)) + (g.chance(1, 2) ? " terminal" : "")); return "dummy-node"; } ls.push_back(ls[pickLine()]); return "repeat-line-at-end"; }
   }
 }
@@ -545,7 +561,7 @@ static std::string textMutate(std::map<std::string, std::vector<std::string>> &f
 int main(int argc, char **argv) {
   vh::Args a = vh::parseArgs(argc, argv);
   vh::Out out(a.out);
-  out.rule = "in-domain circuit with at least one net and at least one cell whose orientation is not N (the F17 branch), or at least one row whose orientation is not N (F16)";
+  out.rule = "in-domain circuit with at least one net and at least one cell whose orientation is not N (the F17 branch), or at least one row whose orientation is not N (F16); or (stream rel, F18) an in-domain circuit exported to a relative prefix";
   vh::installCrashHandler(&out);
   const std::string root = a.out + "/ispd";
   mkdirs(root);
@@ -557,12 +573,17 @@ int main(int argc, char **argv) {
   int nMut = a.search() ? 0 : a.quick() ? 160 : 8000;
   int nTextMut = a.search() ? 0 : a.quick() ? 400 : 20000;
   int nLoadPl = a.search() ? 0 : a.quick() ? 80 : 3000;
+  int nRel = a.search() ? 150 : a.quick() ? 100 : 4000;
 
   std::vector<Case> cases;
   std::ofstream jobs(a.out + "/pyjobs.txt");
   jobs << "bindings\n";
   long long k = 0;
-  enum Mode { PLAIN = 0, RECMUT = 1, TEXTMUT = 2, LOADPL = 3 };
+  char cwd0[4096];
+  if (!getcwd(cwd0, sizeof cwd0)) cwd0[0] = 0;
+  const std::string absRoot = root[0] == '/' ? root : std::string(cwd0) + "/" + root;
+  enum Mode { PLAIN = 0, RECMUT = 1, TEXTMUT = 2, LOADPL = 3, RELPREFIX = 4 };
+  int forceForm = -1;   // --replay: every form of relative prefix on the replayed circuit
   auto addCase = [&](const std::string &stream, const Circuit &c, int mode, vh::Rng &g) {
     const bool mut = mode == RECMUT;
     Case cs;
@@ -574,10 +595,56 @@ int main(int argc, char **argv) {
     mkdirs(dir);
     std::string prefix = dir + "/d";
     out.ops << "case " << cs.id << "\n" << cs.input;
+    bool dom = inDomain(c);
+    if (mode == RELPREFIX) {
+      // export from a working directory of its own, to a relative prefix (or an absolute one below it)
+      const std::string wd = absRoot + "/" + cs.id;
+      if (chdir(wd.c_str()) != 0) { out.fail(cs.id, "cannot chdir to " + wd, cs.input); return; }
+      int form = forceForm >= 0 ? forceForm : (int)g.range(0, 4);
+      std::string dpart;   // directory part as given to read_ispd for the directory read ("" = none)
+      std::string pre;
+      if (form == 0) pre = "d";
+      else if (form == 1) { mkdirs("sub"); dpart = "sub"; pre = "sub/d"; }
+      else if (form == 2) { mkdirs("a"); mkdirs("a/b"); dpart = "a/b"; pre = "a/b/d"; }
+      else if (form == 3) { pre = "./d"; }
+      else { mkdirs("abs"); dpart = wd + "/abs"; pre = wd + "/abs/d"; }
+      static const char *formName[] = {"bare", "one-directory", "two-directories", "dot-slash", "absolute"};
+      out.count(std::string("rel:") + formName[form]);
+      c.exportIspd(pre);
+      jobs << "cd " << wd << "\n";
+      std::ostringstream it;
+      out.ops << "exporttext " << esc(pre) << "\n";
+      tagged(it, "aux", rawLines(pre + ".aux"));
+      tagged(it, "nodes", rawLines(pre + ".nodes"));
+      tagged(it, "pl", rawLines(pre + ".pl"));
+      tagged(it, "nets", rawLines(pre + ".nets"));
+      tagged(it, "scl", rawLines(pre + ".scl"));
+      cs.lit(it.str());
+      cs.oracle = dom;
+      cs.hasCircuit = true;
+      cs.circuit = c;
+      cs.hpwl = c.hpwl();
+      auto rd = [&](const std::string &suffix, const std::string &kind, const std::string &arg, const std::string &entries) {
+        out.ops << "readfs " << kind << " " << esc(pre) << " " << esc(arg) << entries << "\n";
+        jobs << cs.id << suffix << " " << arg << "\n";
+        cs.blk(cs.id + suffix);
+        if (dom) cs.oracleBlocks.push_back(cs.id + suffix);
+      };
+      rd(".a", "exists", pre + ".aux", "");
+      rd(".b", "missing", pre, "");
+      if (!dpart.empty()) rd(".c", "dir", dpart + (g.chance(1, 3) ? "/" : ""), " d.aux d.nets d.nodes d.pl d.scl");
+      if (chdir(cwd0) != 0) {}
+      out.count("stream:" + stream);
+      out.count(dom ? "in-domain" : "out-of-domain");
+      if (dom && form != 4) out.nontrivial(vh::hashStr(cs.input + formName[form]));
+      ++out.evaluations;
+      cases.push_back(std::move(cs));
+      ++k;
+      return;
+    }
     c.exportIspd(prefix);
     Files f = parseFiles(prefix);
     std::ostringstream ia;
-    bool dom = inDomain(c);
     if (mode == PLAIN) {
       out.ops << "export\n";
       printFiles(ia, f);
@@ -731,9 +798,12 @@ int main(int argc, char **argv) {
     for (auto &t : texts) {
       vh::Rng g = vh::Rng::forCase(a.seed, k);
       Circuit c(0);
-      if (parseCircuit(t, c)) { addCase("corpus", c, PLAIN, g); out.count("corpus-cases"); }
+      if (parseCircuit(t, c)) {
+        addCase("corpus", c, PLAIN, g); out.count("corpus-cases");
+        if (!a.replay.empty()) { for (forceForm = 0; forceForm <= 4; ++forceForm) addCase("rel", c, RELPREFIX, g); forceForm = -1; }
+      }
     }
-    if (!a.replay.empty()) nGen = nEight = nBig = nEdge = nMut = nTextMut = nLoadPl = 0;
+    if (!a.replay.empty()) nGen = nEight = nBig = nEdge = nMut = nTextMut = nLoadPl = nRel = 0;
   }
   for (int i = 0; i < nGen; ++i) {
     vh::Rng g = vh::Rng::forCase(a.seed, k);
@@ -784,6 +854,10 @@ int main(int argc, char **argv) {
   for (int i = 0; i < nTextMut; ++i) {
     vh::Rng g = vh::Rng::forCase(a.seed, k);
     addCase("tmut", smallCircuit(g, g.chance(1, 4) ? 2000 : 12, g.chance(1, 3)), TEXTMUT, g);
+  }
+  for (int i = 0; i < nRel; ++i) {
+    vh::Rng g = vh::Rng::forCase(a.seed, k);
+    addCase("rel", smallCircuit(g, 30, g.chance(1, 3)), RELPREFIX, g);
   }
   for (int i = 0; i < nLoadPl; ++i) {
     vh::Rng g = vh::Rng::forCase(a.seed, k);
@@ -869,7 +943,8 @@ int main(int argc, char **argv) {
         Reread r = parseReread(block(bid));
         std::string why = compareRoundTrip(cs.circuit, cs.hpwl, r);
         if (!why.empty())
-          out.fail(cs.id, (bid == cs.id ? "" : "after write_placement + load_placement into a blanked circuit: ") + why, cs.input);
+          out.fail(cs.id, (bid == cs.id ? std::string("") : cs.stream == "rel" ? "exported to a relative prefix, read back by " + std::string(bid.back() == 'a' ? ".aux path" : bid.back() == 'b' ? "bare prefix" : "directory") + ": "
+                           : std::string("after write_placement + load_placement into a blanked circuit: ")) + why, cs.input);
       }
     }
   }
